@@ -15,6 +15,10 @@ NA = {
 PENDING = "static check designed in DESIGN.md section 3 but not built yet; not claimed until it exists"
 
 CHECKS = {
+ "C19": dict(level="proof", technique="abstract interpretation of object code (stack-pointer / callee-saved value domain over LLVM-MC lifted CFGs) with callee summaries",
+   text="Every function of every object the real build flags produce (799 functions, ~580k instructions, nasm and gcc output alike) is interpreted over an abstract domain of entry values, stack-pointer offsets, aligned frames and a stack store, to a fixpoint over all paths: at every ret and tail jump rsp and rbx/rbp/r12-r15 hold their entry values; no instruction writes DF/MXCSR/x87-CW; no store reaches the return address or above; stack height agrees at joins; the 128 first-call trampolines additionally preserve every argument register and touch no vector register. Private-convention kernels are summarised and their callers checked with the summary. All paths, all exits: a proof of the property's register/stack clause for this build.",
+   note="Trusted: LLVM 14 MC operand tables; SysV conformance of libc callees. Assumed (counted per function in the evidence): stores with an unknown index into a frame, or through non-stack pointers, do not hit register-save slots (that is C08's undecided bounds clause). Windows-only code is not assembled.",
+   ref="3/C19"),
  "C11": dict(level="proof", technique="IR path enumeration + constant-folded decision table + field-provenance taint over the ctx layer",
    text="All 28 built _ctx_mgr_submit_<family> functions and the 5 isal_ submit wrappers are decided on every path: reject paths contain exactly the error store and no call (so manager, in-flight contexts, hash state and status are untouched); every accepted path clears ctx->error before the context can reach the manager; the (flags,status) decision table obtained by constant folding the guards equals the documented one; a wrapper's non-zero code mapped from an error field is provably about the submitted context; the error->code mapping is total and injective. Structural decision of the property's 'changes nothing / poisons no later call' clauses; digests of the other jobs are C01 (not applicable).",
    note="Trusted: clang-14 -O0 IR mirrors the C source; DWARF enumerators. The manager assembly is unreachable from reject paths because they contain no call. Base variants: the PROCESSING row is not judged (synchronous).",
